@@ -1,10 +1,14 @@
 import ChessVerif.Refine.Abs
 import ChessVerif.Model.Text
+import ChessVerif.CodeTables
 /-
 Parsing / printing of the line protocol (PROTOCOL.md).  Driver code: trusted for the correspondence
 check only, never used in a theorem.
 -/
 namespace Chess.Driver
+
+/-- the tables of the code (regenerated from /repo's build on every run) -/
+def T : Tables := codeTables
 
 def hexDigit? (c : Char) : Option Nat :=
   if '0' ≤ c ∧ c ≤ '9' then some (c.toNat - '0'.toNat)
@@ -63,6 +67,11 @@ def moveList? (s : String) : Option (List Move) :=
 
 def showMoveList (l : List Move) : String := if l.isEmpty then "-" else ",".intercalate (l.map showMv)
 
+/-- field 15 of a board dump is the observable `get_hash()`; the model's private `hash` field is derived
+from it by undoing the side / castle / en-passant keys exactly as `Board.getHash` applies them (xor is an
+involution), so that `b.getHash T` = the dumped value by construction and `impl Hash` is not relied on. -/
+def rawOfGhash (T : Tables) (b : Board) (g : BB) : BB := g ^^^ (({ b with hash := 0#64 } : Board).getHash T)
+
 def board? (s : String) : Option Board :=
   match s.splitOn "," with
   | [p, n, b, r, q, k, w, bl, comb, stm, wcr, bcr, pin, chk, hash, ep] => do
@@ -70,15 +79,17 @@ def board? (s : String) : Option Board :=
     let w ← bb? w; let bl ← bb? bl; let comb ← bb? comb; let stm ← color? stm
     let wcr ← cr? wcr; let bcr ← cr? bcr; let pin ← bb? pin; let chk ← bb? chk; let hash ← bb? hash
     let ep ← if ep == "-" then some none else (sq? ep).map some
-    pure { pawns := p, knights := n, bishops := b, rooks := r, queens := q, kings := k, white := w,
-           black := bl, combined := comb, stm := stm, wcr := wcr, bcr := bcr, pinned := pin,
-           checkers := chk, hash := hash, ep := ep }
+    let b0 : Board :=
+      { pawns := p, knights := n, bishops := b, rooks := r, queens := q, kings := k, white := w,
+        black := bl, combined := comb, stm := stm, wcr := wcr, bcr := bcr, pinned := pin,
+        checkers := chk, hash := 0#64, ep := ep }
+    pure { b0 with hash := rawOfGhash T b0 hash }
   | _ => none
 
 def showBoardDump (b : Board) : String :=
   ",".intercalate [showBB b.pawns, showBB b.knights, showBB b.bishops, showBB b.rooks, showBB b.queens,
     showBB b.kings, showBB b.white, showBB b.black, showBB b.combined, showColor b.stm,
-    toString b.wcr.toIndex, toString b.bcr.toIndex, showBB b.pinned, showBB b.checkers, showBB b.hash,
+    toString b.wcr.toIndex, toString b.bcr.toIndex, showBB b.pinned, showBB b.checkers, showBB (b.getHash T),
     match b.ep with | none => "-" | some s => toString s.val]
 
 def pcChar : Option (Piece × Color) → Char
